@@ -26,18 +26,48 @@ def scenarios(tier, seed):
         for i, ports in enumerate(profs if tier == "thorough" else profs[:2]):
             out.append(scenario("%s-p%d" % (b, i), b, ports, seed * 131 + i, tech=dict(tREFI=1800 + 37 * i)))
     from . import c02
-    return out + c02.lockstep_scenarios(tier, seed)[:2]
+    return out + c02.lockstep_scenarios(tier, seed)[:2] + mux_lockstep_scenarios(tier, seed)
+
+
+def mux_lockstep_scenarios(tier, seed):
+    variants = [dict(nb=2, nph=2, rdphase=0, wrphase=1, read_latency=3, cwl=2, tWTR=1, tFAW=None, tCCD=1, tRRD=2, read_time=3, write_time=2),
+                dict(nb=4, nph=1, rdphase=0, wrphase=0, read_latency=4, cwl=2, tWTR=2, tFAW=6, tCCD=2, tRRD=2, read_time=8, write_time=4),
+                dict(nb=8, nph=4, rdphase=2, wrphase=3, read_latency=5, cwl=5, tWTR=2, tFAW=5, tCCD=1, tRRD=None, read_time=32, write_time=16),
+                dict(nb=4, nph=2, rdphase=1, wrphase=0, read_latency=6, cwl=3, tWTR=3, tFAW=4, tCCD=2, tRRD=3, read_time=0, write_time=0)]
+    return [dict(name="lockstep-multiplexer-%d" % j, kind="lockstep-mux", seed=seed * 23 + j, ncyc=4000 if tier == "quick" else 15000, params=v)
+            for j, v in enumerate(variants if tier == "quick" else variants * 3)]
+
+
+def _lockstep_mux(sc, workdir):
+    from .. import muxlock
+    r = muxlock.run_mux(sc, workdir)
+    notes = []
+    if r["mismatches"]:
+        notes.append("MODEL-DRIFT module=Multiplexer cycle=%s signal=%s (D_Multiplexer no longer equals the code; exhaustive result not bound)"
+                     % (r["mismatches"][0][0], r["mismatches"][0][1:]))
+    return dict(bad=[], evaluations=r["cycles"], nontrivial=[["lockstep", sc["name"]]] if r["commands"] > 50 else [], traces=1,
+                sample=dict(consts=r["consts"], commands=r["commands"], first=r["sample"][:2]), notes=notes,
+                lockstep=r["cycles"], stats=dict(lockstep_cycles=r["cycles"], lockstep_commands=r["commands"]))
+
+
+def mux_models(tier, seed):
+    return [dict(module="MC_Multiplexer", cfg="MC_Multiplexer_quick.cfg", label="multiplexer gates tRRD/tCCD/tWTR, phases (2 banks, 2 phases, zero slack)", workers=3, timeout=2400),
+            dict(module="MC_Multiplexer", cfg="MC_Multiplexer_neg_wtr.cfg", label="negative control: write-to-read gate one cycle short", workers=2, timeout=1800, expect_violation=True),
+            dict(module="MC_Multiplexer", cfg="MC_Multiplexer_cover_rtw.cfg", label="cover: RTW turn-around", workers=1, timeout=900, expect_violation=True),
+            dict(module="MC_Multiplexer", cfg="MC_Multiplexer_cover_wtr.cfg", label="cover: WTR waiting for the gate", workers=1, timeout=900, expect_violation=True)]
 
 
 def models(tier, seed):
     from . import c02
-    return c02.models(tier, seed)
+    return c02.models(tier, seed) + mux_models(tier, seed)
 
 
 def execute(sc, workdir):
     if sc.get("kind") == "lockstep":
         from . import c02
         return c02._lockstep(sc, workdir)
+    if sc.get("kind") == "lockstep-mux":
+        return _lockstep_mux(sc, workdir)
     r = execute_core(sc, workdir, ID, ("dev",))
     r["nontrivial"] = [[sc["memtype"], sc["clk_khz"], k] for k in r["kinds"] if k in ("ACT", "PRE", "PREA", "RD", "WR", "REF", "ZQCS")]
     return r
